@@ -24,6 +24,9 @@ func init() {
 		// the parent context ends before Close (pre bit 1)
 		quick = append(quick, &Job{Pkg: "", Func: "ZZ_C11_AfterClose", Args: []int64{(entry % 2) * 2, entry % 2, entry, entry % 3, 2 + entry%2}, Bounds: b + "; the channel's parent context is cancelled before Close"})
 		thorough = append(thorough, &Job{Pkg: "", Func: "ZZ_C11_AfterClose", Args: []int64{((entry + 1) % 2) * 2, 1, entry, (entry + 1) % 3, 3 - entry%2}, Bounds: b + "; the channel's parent context is cancelled before Close"})
+		// an empty payload after Close (pre bit 2)
+		quick = append(quick, &Job{Pkg: "", Func: "ZZ_C11_AfterClose", Args: []int64{(entry % 2) * 2, 1, entry, entry % 3, 4 + entry%2}, Bounds: b + "; the payload written after Close is empty"})
+		thorough = append(thorough, &Job{Pkg: "", Func: "ZZ_C11_AfterClose", Args: []int64{((entry + 1) % 2) * 2, 0, entry, (entry + 1) % 3, 5 - entry%2}, Bounds: b + "; the payload written after Close is empty"})
 		quick = append(quick, &Job{Pkg: "", Func: "ZZ_C11_TwoClosers", Args: []int64{(entry % 3), entry % 2, entry}, Bounds: "two concurrent Close calls (the loser returns while the winner is still inside Close, transport calls are scheduling points) and a write that begins after either has returned"})
 		// Race: (q, until, entry, closeArg)
 		quick = append(quick, &Job{Pkg: "", Func: "ZZ_C11_Race", Args: []int64{1, entry % 2, entry, entry % 3}, Bounds: b})
